@@ -79,3 +79,41 @@ Theorem C12_non_library_error_escapes :
   = (map fst l, Some (gen_exc e)).
 Proof. exact non_library_error_escapes. Qed.
 Print Assumptions C12_non_library_error_escapes.
+
+(* ======================================================================== *)
+(* MESSAGE level (the section framing model Frame.v; the template decoder is *)
+(* the abstract [decode_data], constrained exactly by what is proved of the   *)
+(* data-level decoder: it reads from the front, and what follows the bits it  *)
+(* consumed does not influence it — C12_decode_suffix_independent)            *)
+(* ======================================================================== *)
+From PBK Require Import Frame FrameProofs FrameRoundtrip FrameExamples FramePrefix.
+
+(* bytes that follow a message never influence its decoding: whatever is
+   appended, the decoder returns the SAME message record — same sections
+   (indices, layouts, extents, values), same attributes, same serialized bytes;
+   full or metadata-only, with or without value expectations, any signature *)
+Theorem C12_message_trailing_bytes :
+  forall (decode_data : list (pname * pvalue) -> reader -> result (bits * reader)),
+  (forall p r b r', decode_data p r = Ok (b, r') -> r = b ++ r') ->
+  (forall p r b r' s, decode_data p r = Ok (b, r') -> decode_data p (r ++ s) = Ok (b, r' ++ s)) ->
+  forall sig info ign s t m,
+  decode_message decode_data sig info ign s = Ok m ->
+  decode_message decode_data sig info ign (s ++ t) = Ok m /\
+  exists before after, s ++ t = before ++ m_bytes m ++ after ++ t.
+Proof. exact message_trailing_bytes. Qed.
+Print Assumptions C12_message_trailing_bytes.
+
+(* the same, hypotheses discharged, for the template-decoder stub of the
+   correspondence runs (templates of 031031 only) *)
+Theorem C12_message_trailing_bytes_stub : forall sig info ign s t m,
+  decode_message stub_dd sig info ign s = Ok m ->
+  decode_message stub_dd sig info ign (s ++ t) = Ok m.
+Proof. exact message_trailing_bytes_stub. Qed.
+Print Assumptions C12_message_trailing_bytes_stub.
+
+Example C12_message_trailing_bytes_nonvacuous :
+  is_ok (decode_message stub_dd (Some sig_BUFR) false false ex_bytes) = true /\
+  is_ok (decode_message stub_dd (Some sig_BUFR) true false ex_bytes) = true /\
+  decode_message stub_dd (Some sig_BUFR) false false (ex_bytes ++ [66; 85; 70; 82; 0; 0; 9]%N)
+    = decode_message stub_dd (Some sig_BUFR) false false ex_bytes.
+Proof. repeat split; vm_compute; reflexivity. Qed.
